@@ -370,6 +370,13 @@ func c07Targeted() []string {
 		"** -> i\na: {...${z}}",
 		"a: {...${z}}\na: @x",
 	}
+	// sentinel (found by C06's workload, repaired by 55166b23a): quoted keyword-like names
+	// as inner segments of connection endpoint paths inside nested maps
+	out = append(out, "\"near\": {trUe: {trUe.\"near\".'trUe' -> trUe.\"near\".\"near\".\"trUe\"}}")
+	for _, k := range gen.Keywords {
+		out = append(out, "\""+k+"\": {a: {a.\""+k+"\".'a' -> a.\""+k+"\".\""+k+"\".\"a\"}}\n",
+			"q: {'"+strings.ToUpper(k)+"': {x.\""+k+"\" -> _.\""+k+"\".x: {\""+k+"\": 1}}}\n")
+	}
 	// quoted keyword-like child keys in random-ish case at several depths
 	for _, k := range gen.Keywords {
 		t := strings.ToUpper(k[:1]) + k[1:]
